@@ -49,6 +49,15 @@ driver, and an oracle that states the property on the implementation's own tenso
              delay steps), and after every step no target tensor may share storage with an online parameter, and n direct soft_update() calls
              against the closed form.  "Targets REALLY move": after a firing step with tau > 0 a
              target whose online network differs from it must have changed.
+
+Source translation (`pre_gate`, before the Lean gate): `py2lean_bellman.py` translates, from the source text of the seven
+learner files of the tree under test, every `soft_update` (roles of the two zipped networks, `tau` / `1 - tau`), the
+soft-update calls of `learn` (which (online, target) pairs, under which policy-delay condition, over the symbolically
+executed `learn_counter`) and the Bellman target handed to the loss (backwards from `criterion(q, y)`; network outputs are
+named inputs) into `lean/Gen/BellmanGen.lean`; `Proofs/BellmanGenEq.lean` proves the generated definitions equal to
+`blend`, `fires`, `runTargets`, `y` of the model and `Props/C08.lean` restates the theorems over them
+(`C08_source_translation_*`).  If the translator rejects the source or those proofs stop checking, that is a gate problem
+naming the broken equality; the loss / meta / track suites below then supply the failing input.
 """
 from __future__ import annotations
 
@@ -1357,6 +1366,17 @@ def report(chk: Check, case: dict, res: dict, suite: str) -> None:
 
 
 # ----------------------------------------------------------------------------- check
+def pre_gate(chk: Check) -> None:
+    """Regenerate lean/Gen/BellmanGen.lean from the source text of the seven learners of the tree under test (before
+    the Lean gate) and re-check `generated = model` (Proofs/BellmanGenEq.lean) and the theorems over the generated
+    definitions (Props/C08.lean, `C08_source_translation_*`)."""
+    import common
+    import py2lean_bellman
+    common.translation_gate(chk, py2lean_bellman, "Gen/BellmanGen.lean", ["Gen.BellmanGen", "Proofs.BellmanGenEq", "Props.C08"],
+                            "soft_update, the soft-update calls of learn with their policy-delay condition, and the Bellman "
+                            "target handed to the loss, of DQN / CQN / RainbowDQN / DDPG / TD3 / MADDPG / MATD3")
+
+
 def run(chk: Check) -> None:
     rng = chk.rng
     quick = chk.tier == "quick"
